@@ -167,7 +167,8 @@ int main(int argc, char** argv) {
       setBeacon(f->name, p.head.str("mode"), p.head.unum("seed"), p.head.unum("run"));
       Outcome o = f->execute(p);
       if (o.ok) {
-        printf("RESULT ok hash=%016llx steps=%llu\n", (unsigned long long)o.hash, (unsigned long long)o.steps);
+        printf("RESULT ok hash=%016llx obs=%016llx steps=%llu\n", (unsigned long long)o.hash, (unsigned long long)o.obs,
+               (unsigned long long)o.steps);
         printStats();
         return 0;
       }
@@ -191,6 +192,7 @@ int main(int argc, char** argv) {
       uint64_t done = 0, steps = 0;
       int fails = 0;
       uint64_t hashAcc = 0;
+      std::set<uint64_t> distinct;  // plan hashes of non-trivial runs
       for (uint64_t run = from; run < to; run++) {
         // the wall clock only decides how many runs are performed, never what a run does
         if (budgetMs > 0 && (run & 7) == 0) {
@@ -205,8 +207,11 @@ int main(int argc, char** argv) {
         done++;
         steps += o.steps;
         hashAcc ^= mix64(o.hash + run);
+        if (o.nontrivial)
+          distinct.insert(hashStr(p.text()));
         if (getenv("SIM_PRINT_HASHES"))
-          printf("HASH run=%llu hash=%016llx\n", (unsigned long long)run, (unsigned long long)o.hash);
+          printf("HASH run=%llu hash=%016llx obs=%016llx\n", (unsigned long long)run, (unsigned long long)o.hash,
+                 (unsigned long long)o.obs);
         if (!o.ok) {
           std::string path = outdir + "/fail-" + f->name + "-" + mode + "-" + std::to_string(root) + "-" + std::to_string(run) + ".plan";
           size_t cut = o.msg.find("\n#DERIVED-PLAN\n");
@@ -227,6 +232,10 @@ int main(int argc, char** argv) {
       }
       printf("DONE runs=%llu last=%llu steps=%llu fails=%d hashacc=%016llx\n", (unsigned long long)done,
              (unsigned long long)(from + done), (unsigned long long)steps, fails, (unsigned long long)hashAcc);
+      printf("PLANHASHES");
+      for (auto h : distinct)
+        printf(" %016llx", (unsigned long long)h);
+      printf("\n");
       printStats();
       return fails ? 1 : 0;
     }
